@@ -162,6 +162,13 @@ func (s *jwtSigner) Hash() []byte {
 	hash.Write([]byte{0})
 	hash.Write(stringx.ToBytes(s.iss))
 
+	// the key itself is part of the identity of the signer: a key store may be replaced
+	// by one holding another key under the same key id
+	if thumbprint, err := jwk.Thumbprint(crypto.SHA256); err == nil {
+		hash.Write([]byte{0})
+		hash.Write(thumbprint)
+	}
+
 	return hash.Sum(nil)
 }
 
